@@ -83,7 +83,13 @@ var _ SpanProcessor = (*batchSpanProcessor)(nil)
 // If the exporter is nil, the span processor will perform no action.
 func NewBatchSpanProcessor(exporter SpanExporter, options ...BatchSpanProcessorOption) SpanProcessor {
 	maxQueueSize := env.BatchSpanProcessorMaxQueueSize(DefaultMaxQueueSize)
+	if maxQueueSize < 0 {
+		maxQueueSize = DefaultMaxQueueSize
+	}
 	maxExportBatchSize := env.BatchSpanProcessorMaxExportBatchSize(DefaultMaxExportBatchSize)
+	if maxExportBatchSize < 0 {
+		maxExportBatchSize = DefaultMaxExportBatchSize
+	}
 
 	if maxExportBatchSize > maxQueueSize {
 		if DefaultMaxExportBatchSize > maxQueueSize {
@@ -101,6 +107,12 @@ func NewBatchSpanProcessor(exporter SpanExporter, options ...BatchSpanProcessorO
 	}
 	for _, opt := range options {
 		opt(&o)
+	}
+	if o.MaxQueueSize < 0 {
+		o.MaxQueueSize = DefaultMaxQueueSize
+	}
+	if o.MaxExportBatchSize < 0 {
+		o.MaxExportBatchSize = DefaultMaxExportBatchSize
 	}
 	bsp := &batchSpanProcessor{
 		e:      exporter,
